@@ -9,7 +9,7 @@ from vf.props import sess_common
 def run(ctx):
     ctx.rule = (
         "TLC: NoCrossTalk, ForeignIgnored, ConnectTimeoutOrder, NothingLeft, OutcomeSound on Session.tla (<= 3 concurrent operations, "
-        "addresses {1,2}, handles {1,2}); families on the real APIClient: every operation kind x every message kind x {own, foreign address, "
+        "addresses {1,2}, handles {1,2}); families on the real APIClient: TLC-generated histories (one per distinct state of a bounded instance, shortest first); every operation kind x every message kind x {own, foreign address, "
         "foreign handle} alone and next to a concurrent operation, time-out / cancellation / connection loss of every kind, what stays "
         "subscribed afterwards, random histories; every row (outcome + result, callbacks, frames written, distinct callbacks registered, timer "
         "heap at rest) validated by TLC; distinct = distinct schedule"
@@ -21,7 +21,8 @@ def run(ctx):
         cross = rng.sample(cross, 1200)
     sysf = [(sess_common.CFGS[i % 2], s) for i, s in enumerate(cross + special)]
     rnd = [(rng.choice(sess_common.CFGS), sessionsim.c16_random(rng, rng.randrange(3, 14))) for _ in range(800 if ctx.quick else 20000)]
-    sess_common.run_families(ctx, {"ble_systematic": sysf, "ble_random": rnd})
+    tlcf = sess_common.tlc_histories(ctx, "MC_Session_ble_gen.cfg" if ctx.quick else "MC_Session_ble_gen_deep.cfg", 1500 if ctx.quick else 60000, rng)
+    sess_common.run_families(ctx, {"ble_tlc": tlcf, "ble_systematic": sysf, "ble_random": rnd})
     ctx.assumptions += [
         "'nothing subscribed' excludes what the API documents as staying subscribed after success (connect's state callback until its unsub, notify data callback until stop/remove)",
         "all operations are given the same time-out (30 s; disconnect of a timed-out connect 20 s)",
